@@ -226,6 +226,8 @@ def ignoredKeyCaps (k : TermKeys) : List (Nat × Nat × Bytes) :=
 structure Variant where
   x11 : Bool := false
   keycaps : Bool := false
+  /-- fixes/C02-clipboard.patch applied (OSC 52 reply parser cuts at the terminator it found) -/
+  clip : Bool := false
 deriving DecidableEq, Repr, Inhabited
 
 /-- `prepareKeys` (tscreen.go:508-676): the key table of a screen built for `ti`
